@@ -71,6 +71,9 @@ pub enum Init {
     PeerDiscExpiryOkOverride,
     /// close() and, without letting anything else run, further sends
     CloseThenSend,
+    /// DISCONNECT that carries the Session Expiry Interval property with the value 0 on a
+    /// connection whose CONNECT had Session Expiry 0: explicit, but perfectly valid
+    PeerDiscExpiryZero,
 }
 
 impl Init {
@@ -85,7 +88,9 @@ impl Init {
 pub fn alphabet(role: Role) -> Vec<Init> {
     let mut v = vec![Init::Close, Init::CloseReason, Init::CloseNoReason, Init::ForceClose, Init::HandlerErr, Init::PeerDisc, Init::PeerDiscExpiry, Init::PeerDiscAppCloses, Init::PeerDiscAppClosesWith, Init::V(Viol::UnexpectedAck), Init::CloseThenSend];
     if role.is_server() {
-        v.extend([Init::ProtoDisc, Init::ProtoDiscWith, Init::ProtoErr, Init::PeerDiscExpiryOk, Init::PeerDiscExpiryOkOverride]);
+        // (a server must not send Session Expiry in DISCONNECT at all [MQTT-3.14.2-2]: the variants
+        // with that property are valid only towards a server)
+        v.extend([Init::ProtoDisc, Init::ProtoDiscWith, Init::ProtoErr, Init::PeerDiscExpiryOk, Init::PeerDiscExpiryOkOverride, Init::PeerDiscExpiryZero]);
         for k in [Viol::TooLarge, Viol::RecvMax, Viol::Qos, Viol::Retain, Viol::SubId, Viol::AliasUnknown, Viol::AliasExceeds, Viol::BadFilter, Viol::Malformed] {
             v.push(Init::V(k));
         }
@@ -202,6 +207,9 @@ pub async fn run_case(case: &Case) -> Outc {
                 app.proto_plans.borrow_mut().push_back(ProtoPlan { gated: false, answer: ProtoAnswer::CloseSinkThenAck((*init == Init::PeerDiscAppClosesWith).then_some(0x8B)) });
                 c.peer.send(&R::Disconnect { code: Some(0), props: None });
             }
+            Init::PeerDiscExpiryZero => {
+                c.peer.send(&R::Disconnect { code: Some(0), props: Some(vec![Prop::U32(0x11, 0)]) });
+            }
             Init::PeerDiscExpiry | Init::PeerDiscExpiryOk | Init::PeerDiscExpiryOkOverride => {
                 c.peer.send(&R::Disconnect { code: Some(0), props: Some(vec![Prop::U32(0x11, 30)]) });
             }
@@ -292,7 +300,7 @@ pub async fn run_case(case: &Case) -> Outc {
     // O3: decidable when the peer's DISCONNECT arrived at a quiescent endpoint and was delivered
     for (i, init) in case.seq.iter().enumerate() {
         let valid_expiry = expiry_ok && matches!(init, Init::PeerDiscExpiry | Init::PeerDiscExpiryOk | Init::PeerDiscExpiryOkOverride);
-        if !matches!(init, Init::PeerDisc | Init::PeerDiscAppCloses | Init::PeerDiscAppClosesWith) && !valid_expiry {
+        if !matches!(init, Init::PeerDisc | Init::PeerDiscExpiryZero | Init::PeerDiscAppCloses | Init::PeerDiscAppClosesWith) && !valid_expiry {
             continue;
         }
         let settled_before = i == 0 || case.settle & (1 << (i - 1)) != 0;
